@@ -83,24 +83,25 @@ def confirm(prop, outdir, n, name, inplace=None):
     return True
 
 
-def check(name, tier='quick'):
+def check(name, tier='quick', where='/repo'):
+    """where: '/repo' (apply there and undo) or a scratch worktree of /repo (analysed through VFW_REPO while /repo is busy)"""
     dst = os.path.join(V, 'seeded', name)
     meta = json.load(open(os.path.join(dst, 'meta.json')))
     prop = meta['property']
-    st = subprocess.run(['git', '-C', '/repo', 'status', '--porcelain'], capture_output=True, text=True).stdout.strip()
-    assert not st, '/repo not clean: ' + st
-    rc, out = sh(['git', '-C', '/repo', 'apply', os.path.join(dst, 'patch.diff')])
+    st = subprocess.run(['git', '-C', where, 'status', '--porcelain', '--untracked-files=no'], capture_output=True, text=True).stdout.strip()
+    assert not st, where + ' not clean: ' + st
+    rc, out = sh(['git', '-C', where, 'apply', os.path.join(dst, 'patch.diff')])
     assert rc == 0, out
     t0 = time.time()
     try:
-        p = subprocess.run([os.path.join(V, 'bin/vcheck'), prop, tier], capture_output=True, text=True)
+        p = subprocess.run([os.path.join(V, 'bin/vcheck'), prop, tier], capture_output=True, text=True, env=dict(os.environ, VFW_REPO=where))
     finally:
-        subprocess.run(['git', '-C', '/repo', 'checkout', '--', '.'])
+        subprocess.run(['git', '-C', where, 'checkout', '--', '.'])
     viol = [l for l in p.stdout.splitlines() if l.startswith('VIOLATION')]
     det = [l.strip() for l in p.stdout.splitlines() if l.startswith('  cell=')]
     summ = [l for l in p.stdout.splitlines() if l.startswith('SUMMARY')]
     caught = p.returncode == 1 and bool(viol)
-    meta.setdefault('checks', {})[tier] = {'caught': caught, 'rc': p.returncode, 'first_detection': det[0][:300] if det else None,
+    meta.setdefault('checks', {})[tier] = {'applied_to': where, 'caught': caught, 'rc': p.returncode, 'first_detection': det[0][:300] if det else None,
                                            'summary': summ[-1] if summ else None, 'wall_s': round(time.time() - t0)}
     json.dump(meta, open(os.path.join(dst, 'meta.json'), 'w'), indent=1)
     print('%-22s %s %s rc=%d %s %.0fs' % (name, tier, 'CAUGHT' if caught else 'MISSED', p.returncode, det[0][:170] if det else '', time.time() - t0))
@@ -113,4 +114,4 @@ if __name__ == '__main__':
     if sys.argv[1] == 'confirm':
         sys.exit(0 if confirm(*sys.argv[2:7]) else 1)
     if sys.argv[1] == 'check':
-        sys.exit(0 if check(*sys.argv[2:4]) else 1)
+        sys.exit(0 if check(*sys.argv[2:5]) else 1)
